@@ -3,6 +3,12 @@ use crate::arch::*;
 use crate::util::*;
 
 /// boundary-biased size distribution (relative to the constants the crate was built with)
+/// size-like literals of the source under test (env VERIF_LITERALS, written by the orchestrator)
+pub fn extra_bounds() -> &'static Vec<usize> {
+    static B: std::sync::OnceLock<Vec<usize>> = std::sync::OnceLock::new();
+    B.get_or_init(|| std::env::var("VERIF_LITERALS").unwrap_or_default().split(',').filter_map(|x| x.trim().parse().ok()).collect())
+}
+
 pub fn gen_size(rng: &mut Rng, max: usize) -> usize {
     let c = CONSTS;
     let d = rng.below(4) as i64 - 1; // -1..2
@@ -18,6 +24,10 @@ pub fn gen_size(rng: &mut Rng, max: usize) -> usize {
         8 => (c.chunk - 17) as i64 + d,
         9 => (c.chunk + TAG) as i64 + d,
         10 => c.fsbuf as i64 + d,
+        // a size-like literal read from the source of the tree under test (tools/extract_consts.py): a
+        // threshold a change introduced is aimed at even if no constant of the model knows it
+        11 => { let e = extra_bounds(); let fit: Vec<usize> = e.iter().copied().filter(|v| v + 2 <= max).collect();
+                if fit.is_empty() { rng.below(max as u64 + 1) as i64 } else { *rng.pick(&fit) as i64 + d } }
         _ => rng.below(max as u64 + 1) as i64,
     };
     (base.max(0) as usize).min(max)
